@@ -19,6 +19,7 @@ parked on a gated producer + `cancel` from elsewhere while it is parked: prints 
 `conc <idx> <srv> <chunk> <depth> <n> <rounds> <L>`: n clients open simultaneously, per round.
 `many <idx> <srv> <chunk> <depth> <n> <L>`: n streams live (partly pulled) at once on one router, then each finished.
 Script tokens may be repeated: `n*64`.
+`peer <idx> <srv> <client> <puller> v<ver>.z<comp>.f<fmt> <c<len>q<hex>|e<code>,…>`: a scripted peer answers the puller.
 `cnext <idx> <srv> <chunk> <depth> <k> <stream> <evs> <aux>`: k connections pull ONE stream concurrently.
 `aux` is the harness's replay recipe (ignored here).
 `duo <idx> <srv> <kind> <chunk> <depth> <streamA> <evsA> <endA> <streamB> <evsB> <endB> <script> <auxA> <auxB>`:
@@ -306,6 +307,36 @@ def cnext (idx chunk stream evs : String) : String :=
     | none => idx ++ " bad-op"
   | none => idx ++ " bad-op"
 
+/-- `peer`: a scripted peer answers `open` and the successive `next`s; the model's two client reassemblers say what
+the puller returns (`C09.async_eq_sync` holds for every answer list).  Body of the `j`-th answer: pattern `(7, j, len)`. -/
+def parsePeerResps (s : String) : Option (List Resp) :=
+  if s = "-" then some [] else
+  let rec go : Nat → List String → Option (List Resp)
+    | _, [] => some []
+    | j, t :: ts =>
+      if t.startsWith "e" then (go (j + 1) ts).map (Resp.error :: ·)
+      else match (t.drop 1).toString.splitOn "q" with
+        | [l, q] => match bytesOfHex q with
+          | some qb => (go (j + 1) ts).map (Resp.chunk (patBytes 7 (j + 1) (natOf l)) qb :: ·)
+          | none => none
+        | _ => none
+  go 0 (s.splitOn ",")
+
+def peer (idx client openSpec resps : String) : String :=
+  let F := Gen.svsFacts
+  let tags := (openSpec.splitOn ".").map fun p => ((p.take 1).toString, natOf (p.drop 1).toString)
+  let version := (tags.lookup "v").getD 1
+  let comp := (tags.lookup "z").getD 0
+  match parsePeerResps resps with
+  | none => idx ++ " bad-op"
+  | some rs =>
+    -- `parse_open_response`: the contract version must be 1 and the compression tag known; a zstd tag on these
+    -- raw bodies is not generated
+    if version != 1 || comp != 0 then idx ++ " err" else
+    match (if client = "sync" then syncPull F (fun _ => 8192) rs else asyncPull F rs) with
+    | none => idx ++ " err"
+    | some b => joinSp [idx, "ok", toString b.length, toString (fnv b).toNat]
+
 def step (st : Unit) (ws : List String) : Unit × String :=
   match ws with
   | ["raw", idx, _srv, kind, comp, chunk, depth, speed, stream, evs, end_, script, _aux] =>
@@ -314,10 +345,16 @@ def step (st : Unit) (ws : List String) : Unit × String :=
     (st, hl idx client puller kind comp chunk stream evs end_)
   | ["cnext", idx, _srv, chunk, _depth, _k, stream, evs, _aux] => (st, cnext idx chunk stream evs)
   | ["conc", idx, _srv, chunk, _depth, n, rounds, L] => (st, conc idx chunk n rounds L)
+  | ["peer", idx, _srv, client, _puller, openSpec, resps] => (st, peer idx client openSpec resps)
   | ["many", idx, _srv, chunk, _depth, n, L] =>
     -- n streams live at once on one router, one pull from each, then each drained: per stream the same summary
+    -- every fifth stream (index ≡ 3 mod 5) that is not finished by its first pull is cancelled instead (`x`); the order in
+    -- which the streams are finished or cancelled does not matter (`C09.other_streams_untouched`)
     let r := concRound Gen.svsFacts (natOf chunk) (natOf n) (natOf L) 0
-    (st, joinSp ([idx, "many", if r.1 then "distinct" else "same"] ++ r.2))
+    let c := natOf chunk
+    let toks := (List.range r.2.length).zip r.2 |>.map fun (i, t) =>
+      if i % 5 == 3 && c != 0 && (natOf L + 3 * i) > c then "x" else t
+    (st, joinSp ([idx, "many", if r.1 then "distinct" else "same"] ++ toks))
   | ["duo", idx, _srv, kind, chunk, _depth, sa, ea, enda, sb, eb, endb, script, _auxa, _auxb] =>
     (st, duo idx kind chunk sa ea enda sb eb endb script)
   | _ :: idx :: _ => (st, idx ++ " bad-op")
